@@ -24,13 +24,13 @@ From BT Require Import Base.Prelude Base.Str Base.Rose.
 Definition forest := list tree.
 Definition ref := list nat.
 
-Fixpoint del_nth {A} (i : nat) (l : list A) : list A :=
+Fixpoint del_nth {A} (i : nat) (l : list A) {struct l} : list A :=
   match l with
   | [] => []
   | x :: r => match i with 0 => r | S j => x :: del_nth j r end
   end.
 
-Fixpoint upd_nth {A} (i : nat) (g : A -> A) (l : list A) : list A :=
+Fixpoint upd_nth {A} (i : nat) (g : A -> A) (l : list A) {struct l} : list A :=
   match l with
   | [] => []
   | x :: r => match i with 0 => g x :: r | S j => x :: upd_nth j g r end
